@@ -131,6 +131,7 @@ def entries():
     add('stack:notrim', 2, lambda s: etl.stack(s[0], s[1], trim=False, missing='NA'), S)
     add('stack:nopad', 2, lambda s: etl.stack(s[0], s[1], pad=False), S)
     add('annex', 2, lambda s: etl.annex(s[0], s[1]), S)
+    add('addcolumn:lazycol', 2, lambda s: etl.addcolumn(s[0], 'c', etl.values(s[1], 0)), S + ' nojudge')
     add('addfield', 1, lambda s: etl.addfield(s[0], 'n', 42), S)
     add('addfield:fn', 1, lambda s: etl.addfield(s[0], 'n', lambda r: r['v'], index=1), S)
     add('addfields', 1, lambda s: etl.addfields(s[0], [('n', 1), ('m', lambda r: r['k'], 0)]), S)
@@ -197,6 +198,8 @@ def entries():
     add('sort:buffered', 1, lambda s: etl.sort(s[0], 'k', buffersize=2), 'sorted')
     add('sort:nocache', 1, lambda s: etl.sort(s[0], 'k', cache=False), 'sorted')
     add('mergesort', 2, lambda s: etl.mergesort(s[0], s[1], key='k'), 'sorted')
+    add('mergesort:presorted', 2, lambda s: etl.mergesort(s[0], s[1], key='k', presorted=True, missing='NA'))
+    add('mergesort:header', 2, lambda s: etl.mergesort(s[0], s[1], key='k', header=['v', 'k', 'z'], presorted=True))
     # ---- joins
     for nm in ('join', 'leftjoin', 'rightjoin', 'outerjoin', 'antijoin', 'lookupjoin'):
         add(nm, 2, (lambda f: lambda s: f(s[0], etl.rename(s[1], {'a': 'b', 'v': 'w'}), key='k'))(getattr(etl, nm)), 'sorted')
